@@ -291,6 +291,10 @@ func c01Programs(seed int64, perConfig int) []*gen.Program {
 							cfg.Txs = 3
 						}
 						cfg.Opts = gen.OpenOpts{Freelist: fl, NoFreelistSync: nfs, NoGrowSync: ngs}
+						cfg.Managed = 0.3 // transactions through DB.Update, some of whose bodies fail or panic
+						if i%3 == 1 && cfg.Profile != "big" {
+							cfg.HeldReaders = 0.4 // open readers withhold pages during the traced history
+						}
 						out = append(out, gen.Generate(seed, i, cfg))
 						i++
 					}
